@@ -404,7 +404,7 @@ def run(tier, seed):
     quick = tier == "quick"
     rng = random.Random(seed)
     max_w, max_s = (3, 4) if quick else (3, 5)
-    stride, big, stride2, big2 = (8, 9, 32, 12) if quick else (2, 12, 4, 15)
+    stride, big, stride2, big2 = (8, 9, 32, 12) if quick else (4, 12, 32, 15)
     mps = [mp_list(nw, random.Random(seed * 1000 + nw)) for nw in range(1, max_w + 1)]
     t_start = time.time()
     wd = lib.workdir(PID, "gen")
